@@ -45,8 +45,8 @@ def check(run):
     # the clauses C01 relies on are obligations of this check too: linear trackers, per-key copies, imputers
     from .c06 import depends_on
     depends_on(run, "C10")
-    depends_on(run, "C12", {"TYPESTATE", "NOMUT"})
-    depends_on(run, "C06", {"MERGE", "KEYS", "COUNT", "VALUE"})
+    depends_on(run, "C12", {"TYPESTATE", "NOMUT", "COPY"})
+    depends_on(run, "C06", {"MERGE", "KEYS", "COUNT", "VALUE", "COPY"})
     depends_on(run, "C17", {"ORDER", "PROPAGATE"})
     depends_on(run, "C03", {"NEW", "C0"})
     depends_on(run, "C15", {"CTOR", "DEFAULTS"}, only=lambda rule, inst: inst.startswith("IncrementalSage"))
